@@ -1,7 +1,7 @@
 //! verif-harness: generates cases and runs them on the implementation.
 //!   harness gen <PROP> --seed S --n N --tier quick|thorough   > cases
 //!   harness run <PROP> < cases                                > cases with OUT lines
-mod alloc; mod rng; mod tok; mod resp; mod srv; mod c20; mod c01; mod c03; mod c17; mod c18; mod c07; mod c08;
+mod alloc; mod rng; mod tok; mod resp; mod srv; mod c20; mod c01; mod c03; mod c17; mod c18; mod c07; mod c08; mod c05; mod c14; mod c19;
 use std::io::{self, BufWriter, Write};
 
 #[global_allocator]
@@ -23,20 +23,20 @@ fn main() {
     let out = io::stdout(); let mut w = BufWriter::new(out.lock());
     match mode {
         "gen" => {
-            let cases = match prop { "C20" => c20::gen(seed, n, &tier), "C01" => c01::gen(seed, n, &tier), "C03" => c03::gen(seed, n, &tier), "C17" => c17::gen(seed, n, &tier), "C18" => c18::gen(seed, n, &tier), "C07" => c07::gen(seed, n, &tier), "C08" => c08::gen(seed, n, &tier), _ => { eprintln!("no generator for {}", prop); std::process::exit(2) } };
+            let cases = match prop { "C20" => c20::gen(seed, n, &tier), "C01" => c01::gen(seed, n, &tier), "C03" => c03::gen(seed, n, &tier), "C17" => c17::gen(seed, n, &tier), "C18" => c18::gen(seed, n, &tier), "C07" => c07::gen(seed, n, &tier), "C08" => c08::gen(seed, n, &tier), "C05" => c05::gen(seed, n, &tier), "C14" => c14::gen(seed, n, &tier), "C19" => c19::gen(seed, n, &tier), _ => { eprintln!("no generator for {}", prop); std::process::exit(2) } };
             for c in &cases { tok::write_case(&mut w, c); }
         }
         "run" => {
             let cases = tok::read_cases(io::stdin().lock());
             for c in &cases {
-                let r = match prop { "C20" => c20::run(c), "C01" => c01::run(c), "C03" => c03::run(c), "C17" => c17::run(c), "C18" => c18::run(c), "C07" => c07::run(c), "C08" => c08::run(c), _ => { eprintln!("no runner for {}", prop); std::process::exit(2) } };
+                let r = match prop { "C20" => c20::run(c), "C01" => c01::run(c), "C03" => c03::run(c), "C17" => c17::run(c), "C18" => c18::run(c), "C07" => c07::run(c), "C08" => c08::run(c), "C05" => c05::run(c), "C14" => c14::run(c), "C19" => c19::run(c), _ => { eprintln!("no runner for {}", prop); std::process::exit(2) } };
                 tok::write_case(&mut w, &r);
             }
         }
         "judge" => {
             let cases = tok::read_cases(io::stdin().lock());
             for c in &cases {
-                let fails = match prop { "C20" => c20::judge(c, &c.outs), "C03" => c03::judge(c, &c.outs), _ => vec![] };
+                let fails = match prop { "C20" => c20::judge(c, &c.outs), "C03" => c03::judge(c, &c.outs), "C14" => c14::judge(c, &c.outs), "C19" => c19::judge(c, &c.outs), _ => vec![] };
                 for f in fails { writeln!(w, "{}", f).unwrap(); }
             }
         }
